@@ -48,6 +48,12 @@ GInit == /\ calc = Calc0 /\ sess = <<>> /\ run = NoRun /\ today = 0 /\ last = [c
             \/ (mode = "frame" /\ \E x \in SeqSet(Consts.codes) : \E y \in Rated :
                     LET l == [form |-> "money_conv", x |-> O(QInt(10), y), target |-> "usd"] IN
                     c = [pre |-> <<[cur |-> x, q |-> QInt(2)]>>, line |-> l, expected |-> LineMeaning(Ctx1(SetRate(Calc0, x, QInt(2))), l).slot])
+            \* ... and the updated currency itself converts with the new rate, in both directions - also one of the 129 currencies that
+            \* have no configured rate: update_currency is what gives it one
+            \/ (mode = "frame" /\ \E x \in SeqSet(Consts.codes) \ {"usd"} : \E dir \in {"from", "into"} :
+                    LET l == IF dir = "from" THEN [form |-> "money_conv", x |-> O(QInt(10), x), target |-> "usd"]
+                                             ELSE [form |-> "money_conv", x |-> O(QInt(10), "usd"), target |-> x] IN
+                    c = [pre |-> <<[cur |-> x, q |-> QInt(2)]>>, line |-> l, expected |-> LineMeaning(Ctx1(SetRate(Calc0, x, QInt(2))), l).slot])
             \/ (mode = "hist"  /\ c = [pre |-> <<>>])
 GNext ==
   /\ mode = "hist" /\ Len(hist) < MaxDepth /\ UNCHANGED <<mode, c>>
